@@ -119,4 +119,40 @@ theorem ck_of_fits {x : Int} (h : fits x = true) : ck x = .ok x := by
   unfold ck C14.arith; simp [imax, fits] at *; simp [h]
 
 
+/-! ### make_signed / make_unsigned -/
+
+/-- the result of a transformation trait, the reason of an ill-formed instantiation erased -/
+def okOf {α : Type} : Except Err α → Option α
+  | .ok a => some a
+  | .error _ => none
+
+theorem M_makeSignLike_nonbase (bySize : Nat → Base) (table : Base → Option Base) (t : CType)
+    (h : ∀ b q, t ≠ base b q) : okOf (M.makeSignLike bySize table t) = none := by
+  unfold M.makeSignLike
+  rw [M_removeCv_eq]
+  cases t with
+  | base b q => exact absurd rfl (h b q)
+  | ptr u q => simp [Spec.removeCv, withCV, M.usesSize, M.isEnum, M.isSame, okOf]
+  | mptr u q => simp [Spec.removeCv, withCV, M.usesSize, M.isEnum, M.isSame, okOf]
+  | lref u => simp [Spec.removeCv, withCV, M.usesSize, M.isEnum, M.isSame, okOf]
+  | rref u => simp [Spec.removeCv, withCV, M.usesSize, M.isEnum, M.isSame, okOf]
+  | arr u n => simp [Spec.removeCv, withCV, M.usesSize, M.isEnum, M.isSame, okOf]
+  | uarr u => simp [Spec.removeCv, withCV, M.usesSize, M.isEnum, M.isSame, okOf]
+  | fn r a q rq ne => simp [Spec.removeCv, withCV, M.usesSize, M.isEnum, M.isSame, okOf]
+
+theorem S_makeSignLike_nonbase (want other : List (Base × Nat)) (t : CType)
+    (h : ∀ b q, t ≠ base b q) : okOf (Spec.makeSignLike want other t) = none := by
+  cases t with
+  | base b q => exact absurd rfl (h b q)
+  | _ => rfl
+
+theorem makeSigned_base (b : Base) (q : CV) :
+    okOf (M.makeSigned (base b q)) = okOf (Spec.makeSigned (base b q)) := by
+  rcases q with ⟨_ | _, _ | _⟩ <;> cases b <;> decide
+
+theorem makeUnsigned_base (b : Base) (q : CV) :
+    okOf (M.makeUnsigned (base b q)) = okOf (Spec.makeUnsigned (base b q)) := by
+  rcases q with ⟨_ | _, _ | _⟩ <;> cases b <;> decide
+
+
 end Tetl.C15
